@@ -152,7 +152,9 @@ class Row(Vector):
 	def __repr__(self):
 		# Custom repr to look like a Row, not a Vector
 		idx = self._index
-		values = [repr(col[idx]) for col in self._raw_cols]
+		from .display import _int_text
+		# (an int beyond the interpreter's int-to-str digit limit has no repr(): shown as the table shows it)
+		values = [_int_text(col[idx]) if type(col[idx]) is int else repr(col[idx]) for col in self._raw_cols]
 		return f"Row({idx}: {', '.join(values)})"
 
 	def __getattr__(self, attr):
